@@ -1738,6 +1738,47 @@ func (e *lenEngine) bindings(f *ssa.Function) []siteBinding {
 	return out
 }
 
+// callerBindings: like bindings, but for an entry point that is also called from other input-handling code
+// of the library: one binding per tainted call site, an empty one when the site fixes nothing.
+func (e *lenEngine) callerBindings(f *ssa.Function) (out []siteBinding, sites []ssa.CallInstruction) {
+	if e.t == nil {
+		return nil, nil
+	}
+	node := e.p.CallGraph().Nodes[f]
+	if node == nil {
+		return nil, nil
+	}
+	for _, edge := range node.In {
+		caller := edge.Caller.Func
+		if !e.t.funcs[caller] || edge.Site == nil || caller == f || !isCirclFunc(caller) {
+			continue
+		}
+		c0 := edge.Site.Common()
+		if c0.StaticCallee() != f {
+			continue // only direct calls: a dynamic dispatch reaches f through its interface contract
+		}
+		var args []ssa.Value
+		args = append(args, c0.Args...)
+		if len(args) != len(f.Params) {
+			continue
+		}
+		lc := e.ctxOf(caller)
+		facts := append(lc.factsAt(edge.Site), e.paramFacts(caller)...)
+		b := siteBinding{lens: map[*ssa.Parameter]int64{}}
+		for i, par := range f.Params {
+			if sliceLike(par.Type()) {
+				lo, hi := e.boundsAt(lc, lc.lenOf(args[i]), facts)
+				if hi >= 0 && lo == hi {
+					b.lens[par] = lo
+				}
+			}
+		}
+		out = append(out, b)
+		sites = append(sites, edge.Site)
+	}
+	return out, sites
+}
+
 // minLen: the smallest K such that the goals follow at `at` from the facts together with la ≥ K,
 // where the added fact does not contradict the others (a contradictory requirement proves nothing).
 func (lc *lenCtx) minLen(goals []lin, at ssa.Instruction, base []lin, la lin) (int64, bool) {
